@@ -490,3 +490,45 @@ Theorem C02_route_remainder_spec : forall decoded pieces rem,
   route_remainder decoded pieces = Some rem <-> decoded = concat pieces ++ rem.
 Proof. exact route_remainder_spec. Qed.
 Print Assumptions C02_route_remainder_spec.
+
+(* ---- proof-only round: end-to-end compositions (Proofs/C02_e2e.v) *)
+Require Import Verif.Proofs.C02_e2e.
+
+(* the FULL statement for requests without a virtual-root header, about the regenerated __call__: context = the
+   resource reached by the consumed segments, view name / subpath from the rest, `traversed` = EXACTLY the consumed
+   segments, virtual root = root (cf. C02_traversed_partial, which only says "= spec_traverser") *)
+Theorem C02_gen_call_no_vroot_full : forall root q d,
+  q_vroot q = None -> gen_call root q = Ok d ->
+  exists path sub ctx consumed rest,
+    path_and_subpath q = Ok (path, sub) /\
+    walk_outcome root (gen_split_path_info path) ctx consumed rest /\
+    t_context d = fst ctx /\ t_view_name d = view_name_of rest /\ t_subpath d = subpath_of sub rest /\
+    t_traversed d = consumed /\
+    t_virtual_root d = fst root /\ t_virtual_root_path d = [] /\ t_root d = fst root.
+Proof. exact gen_call_no_vroot_full. Qed.
+Print Assumptions C02_gen_call_no_vroot_full.
+
+(* route match -> match dictionary -> traversal, for a `*traverse` remainder: the regenerated traverser walks the
+   normalised remainder of the decoded PATH_INFO (whatever the traverse= option says) and returns its outcome *)
+Theorem C02_route_star_to_resolution : forall root decoded pieces rem opt pi sp d,
+  route_remainder decoded pieces = Some rem ->
+  gen_call root (mkReq pi (Some (mkMd (traverse_entry (Some (MTuple (split_path_info (slash :: rem)))) opt) sp)) None)
+    = Ok d ->
+  decoded = concat pieces ++ rem /\
+  exists ctx consumed rest,
+    walk_outcome root (split_path_info (slash :: rem)) ctx consumed rest /\
+    t_context d = fst ctx /\ t_view_name d = view_name_of rest /\ t_traversed d = consumed /\
+    t_virtual_root d = fst root /\ t_virtual_root_path d = [] /\ t_root d = fst root.
+Proof. exact route_star_to_resolution. Qed.
+Print Assumptions C02_route_star_to_resolution.
+
+(* ... and for a route without capture whose traverse= option names ordinary segments: exactly those are walked *)
+Theorem C02_route_option_to_resolution : forall root ps pi sp d,
+  Forall normal_seg ps ->
+  gen_call root (mkReq pi (Some (mkMd (traverse_entry None (Some ps)) sp)) None) = Ok d ->
+  exists ctx consumed rest,
+    walk_outcome root ps ctx consumed rest /\
+    t_context d = fst ctx /\ t_view_name d = view_name_of rest /\ t_traversed d = consumed /\
+    t_virtual_root d = fst root /\ t_virtual_root_path d = [] /\ t_root d = fst root.
+Proof. exact route_option_to_resolution. Qed.
+Print Assumptions C02_route_option_to_resolution.
